@@ -1,0 +1,27 @@
+//go:build verif
+
+package fasthttp
+
+// Contracts for streaming.go, checked by /verif/gocv (comment-only; compiled to nothing).
+
+//@ func bodyStreamHeader.ContentLength
+//@   trusted
+//@   pure
+
+// requestStream.drained: the wire position of a fixed-length body is the larger of what was prefetched into the
+// body buffer and what the handler has read; the body is off the wire exactly when that reaches Content-Length.
+// For chunked bodies only the end-of-chunks marker counts.
+//@ func requestStream.drained results r
+//@   property C02 C04
+//@   pure
+//@   ensures[chunked] cl == -1 ==> r == rs.chunkedDone
+//@   ensures[fixed-no-prefetch] cl != -1 && rs.prefetchedBytes == nil ==> r == (rs.totalBytesRead >= cl)
+//@   ensures[fixed] cl != -1 && rs.prefetchedBytes != nil ==> r == (max(rs.totalBytesRead, pf) >= cl)
+//@   ghost cl int
+//@   ghost pf int
+//@   on call bodyStreamHeader.ContentLength -> n:
+//@     nohavoc
+//@     returns cl
+//@   on call bytes.Reader.Size -> n:
+//@     nohavoc
+//@     returns pf
